@@ -13,12 +13,13 @@
 #include "vf.h"
 struct PodProbe {
   int32_t v;
+  bool priv;   // harness locals (push argument, pop/steal destination): not probed
   PodProbe() = default;
   PodProbe(const PodProbe&) = default;
   PodProbe& operator=(const PodProbe& o) noexcept {
-    vf_race_read(&o);
-    vf_race_write(this);
-    v = o.v;
+    if (!o.priv) vf_race_read(&o);
+    if (!priv) vf_race_write(this);
+    v = o.v;   // priv stays: it is a property of the object, not of the value
     return *this;
   }
 };
@@ -26,6 +27,7 @@ namespace std {
 template <> struct is_trivially_copyable<PodProbe> : true_type {};
 }
 #include <dispenso/chase_lev_deque.h>
+#include "probe.h"
 
 #ifndef VF_CAP
 #define VF_CAP 2
@@ -38,10 +40,12 @@ static dispenso::ChaseLevDeque<PodProbe, VF_CAP> D;
 
 static void stealer(void*) {
   PodProbe out;   // thread-private destination
+  out.priv = true;
   D.try_steal(out);
 }
 static void stealerB(void*) {
   PodProbe out;
+  out.priv = true;
   D.try_steal(out);
 }
 
@@ -49,6 +53,18 @@ extern "C" void vf_main() {
   PodProbe a, b, out;
   a.v = 1;
   b.v = 2;
+  a.priv = b.priv = out.priv = true;
+  {
+    VfAtomic noPreempt;
+    warm_atomic(D.top_);
+    warm_atomic(D.bottom_);
+    D.slotPtr(0)->priv = false;   // storage_ is raw memory: the slots are shared objects
+    warm_probe(D.slotPtr(0));
+#if VF_CAP > 1
+    D.slotPtr(1)->priv = false;
+    warm_probe(D.slotPtr(1));
+#endif
+  }
 #if VF_KIND == 0
   // no wrap-around: at most VF_CAP pushes in total
   vf_spawn(stealer, nullptr);
